@@ -16,13 +16,15 @@ def c13(work, tier, seed):
     scripts, slow = [], []
     for store in ("cookie", "file"):
         cfg = base(store)
-        for st in ("issued", "unknown", "reused") + (("expired",) if tier == "thorough" else ()):
+        for st in ("issued", "unknown", "reused") + (("expired", "expired-after-failed") if tier == "thorough" else ()):
             for lg in LOGINS:
-                for rep in range(1 if tier == "quick" or st == "expired" else 3):
+                if st == "expired-after-failed" and lg not in ("ok", "nousername"):
+                    continue
+                for rep in range(1 if tier == "quick" or st.startswith("expired") else 3):
                     sc = {"id": "cb%04d" % (len(scripts) + len(slow)), "kind": "callback", "cfg": cfg, "state": st, "login": lg, "user": rng.choice(["user1", "Ünï cødé", "bob@corp.example", "x" * 200])}
                     # an expired state means waiting out the two-minute lifetime: these scripts are spread over the
                     # instances instead of queueing up on one
-                    (slow if st == "expired" else scripts).append(sc)
+                    (slow if st.startswith("expired") else scripts).append(sc)
         npos = 40 if tier == "quick" else 400
         for k in range(npos):
             scripts.append({"id": "ck%04d" % len(scripts), "kind": "cookie", "cfg": cfg, "mut": "subst", "pos": (k * 9973 + seed) % 100000, "user": "user1"})
